@@ -13,8 +13,8 @@ def Op.actor : Op → Acct
   | .fund a _ | .register a .. | .transfer a .. | .setController a .. | .updateResolve a .. | .updateDetails a ..
   | .sellName a .. | .cancelSellName a .. | .completeName a .. | .buyName a .. | .offerName a .. | .cancelOffer a ..
   | .acceptOffer a .. | .createRollapp a .. | .registerAlias a .. | .sellAlias a .. | .cancelSellAlias a ..
-  | .completeAlias a .. | .buyAlias a .. | .offerAlias a .. => a
-  | .advance _ | .trading .. | .setChainAliases _ => 0
+  | .completeAlias a .. | .buyAlias a .. | .offerAlias a .. | .transferRollapp a .. => a
+  | .advance _ | .trading .. | .setChainAliases _ | .migrateChainIds _ | .updateAliases .. | .setParams .. => 0
 
 /-- every way an accepted operation can rewrite the record `d` of name `n`, with the facts that
     authorise it -/
@@ -54,6 +54,11 @@ inductive NameChange (s : State) (n : Name) (d : DymName) : Op → DymName → P
   | accept (pfx : Bool) (id m : Nat) (bo : BuyOrder) : AMap.get s.bos id = some bo → bo.isAlias = false → bo.asset = n →
       d.expired s.now = false → AMap.get s.nameSO n = none → bo.buyer ≠ d.owner →
       NameChange s n d (.acceptOffer d.owner pfx id m) (cleared bo.buyer d.expireAt)
+  /-- governance (no signer): the chain-id migration rewrites the chain-ids of the address records of an
+      unexpired name, and only when the rewritten identities are still pairwise distinct; paths,
+      values, owner, controller, expiry and contact stay -/
+  | migrate (m : List (Chain × Chain)) : d.expired s.now = false → ((d.configs.map (migConfig m)).map cid).Nodup →
+      NameChange s n d (.migrateChainIds m) { d with configs := d.configs.map (migConfig m) }
 
 /-! ### operations that do not touch the name store -/
 
@@ -294,7 +299,7 @@ theorem completeNameSOMsg_change {a m} (hI : Inv s) (h : completeNameSOMsg s a m
         | false => rfl
         | true => simp [hx] at hne
       have hsel : so.seller = d.owner := by
-        obtain ⟨d1, hd1', _, hs⟩ := hI.so n so hso
+        obtain ⟨d1, hd1', _, hs, _⟩ := hI.so n so hso
         rw [getName] at hd; rw [hd] at hd1'; injection hd1' with hd1'; subst hd1'; exact hs
       exact ⟨_, if_pos rfl, Or.inr (NameChange.complete a so b hso hsel hb he (by rename (d.owner = a ∨ b.bidder = a) => hp; exact hp.imp Eq.symm Eq.symm))⟩
     · exact ⟨d, by simp [hnm]; exact hd, Or.inl rfl⟩
@@ -321,7 +326,7 @@ theorem purchaseName_change {a m offer} (hI : Inv s) (h : purchaseName s a m off
       injection hb with hb; subst hb
       rename (validatePurchase s _ offer = Except.ok _) => hv
       have hse := validatePurchase_ok hv
-      obtain ⟨d1, hd1, hlt, hsel⟩ := hI.so n _ hso
+      obtain ⟨d1, hd1, hlt, hsel, _⟩ := hI.so n _ hso
       rw [hd] at hd1; injection hd1 with hd1; subst hd1
       have he : d.expired s.now = false := by
         simp only [SellOrder.expired, DymName.expired, decide_eq_false_iff_not] at hse ⊢
@@ -374,7 +379,7 @@ theorem acceptBO_change {a pfx id mn} (h : acceptBO s a pfx id mn = .ok s') (hd 
 theorem exec_ns_frame {op : Op} (h : exec s op = .ok s')
     (hop : match op with
       | .register .. | .transfer .. | .setController .. | .updateResolve .. | .updateDetails .. | .completeName ..
-      | .buyName .. | .acceptOffer .. => False
+      | .buyName .. | .acceptOffer .. | .migrateChainIds .. => False
       | _ => True) : s'.ns = s.ns := by
   cases op <;> simp only at hop <;> simp only [exec, pure, Except.pure] at h
   case fund => injection h with h; subst h; rfl
@@ -407,6 +412,17 @@ theorem exec_ns_frame {op : Op} (h : exec s op = .ok s')
     · have := completeAliasSO_ns h; simpa using this
     · injection h with h; subst h; simp
   case offerAlias => unfold placeAliasBO at h; mcases' h; exact putBO_ns h
+  case transferRollapp => obtain ⟨r, _, _, _, rfl⟩ := transferRollapp_ok h; rfl
+  case updateAliases => obtain ⟨ca, rfl, _⟩ := updateAliases_ok h; rfl
+  case setParams => obtain ⟨rfl, _⟩ := setParams_ok h; rfl
+
+theorem migrateChainIds_change {m : List (Chain × Chain)} (h : migrateChainIds s m = .ok s') (hd : getName s n = some d) :
+    ∃ d', getName s' n = some d' ∧ (d' = d ∨ NameChange s n d (.migrateChainIds m) d') := by
+  obtain ⟨rfl, _, _⟩ := migrateChainIds_ok h
+  refine ⟨migName s.now m d, by rw [getName_migrateT, hd]; rfl, ?_⟩
+  rcases migName_cases s.now m d with e | ⟨he, hn, e⟩
+  · exact Or.inl e
+  · rw [e]; exact Or.inr (NameChange.migrate m he hn)
 
 /-- **who can change what**: an accepted operation either leaves the record of a name as it is, or
     rewrites it in one of the ways listed by `NameChange` (each with its authorisation facts);
@@ -422,6 +438,7 @@ theorem name_change {op : Op} (hI : Inv s) (h : exec s op = .ok s') (hd : getNam
   case completeName => exact completeNameSOMsg_change hI h hd
   case buyName => exact purchaseName_change hI h hd
   case acceptOffer => exact acceptBO_change h hd
+  case migrateChainIds => exact migrateChainIds_change h hd
   all_goals
     have := exec_ns_frame h trivial
     exact ⟨d, by rw [getName, this]; exact hd, Or.inl rfl⟩
